@@ -135,7 +135,9 @@ pub struct Ca {
 }
 
 #[derive(Clone, Debug, PartialEq, Eq, Hash, Serialize, Deserialize)]
-pub enum TaState { Good, WrongKey, Garbage, Expired, Unreachable }
+pub enum TaState { Good, WrongKey, Garbage, Expired, Unreachable,
+    /// a certificate with the right key whose notBefore is one hour after the world's `now`
+    NotYetValid }
 
 #[derive(Clone, Debug, PartialEq, Eq, Hash, Serialize, Deserialize)]
 pub struct Tal {
